@@ -414,21 +414,211 @@ func receiverReappear(out *AreaOut) {
 		hist(out.Hist, "receiver-reappear/not-reached")
 		return
 	}
+	// from here on the downloader goroutine is parked inside its "nothing to do" branch: everybody else (the
+	// polling loop's RunOnce, the sync loop's Next / SeenInstances) must still get through (C17)
+	within := func(f func()) bool {
+		ch := make(chan struct{})
+		go func() { f(); close(ch) }()
+		select {
+		case <-ch:
+			return true
+		case <-time.After(3 * time.Second):
+			return false
+		}
+	}
 	_ = mem.Store(ctx, s2, data)
-	_ = r.RunOnce(ctx, false)
+	if !within(func() { _ = r.RunOnce(ctx, false); _ = r.SeenInstances() }) {
+		close(hook.release)
+		out.Oracle = append(out.Oracle, OracleFailure{"C17", "receiver-blocked-by-idle-downloader", "a downloader that found its instance gone and has nothing to do keeps the receiver's mutex: RunOnce / SeenInstances (the polling loop and the sync loop) did not return within 3 s", map[string]any{"s1": s1}})
+		hist(out.Hist, "receiver-reappear/blocked")
+		return
+	}
 	close(hook.release)
 	delivered := false
 	for dl := time.Now().Add(3 * time.Second); time.Now().Before(dl) && !delivered; {
-		if inst, u := r.Next(); inst != "" {
+		var inst string
+		var u snapshot.Update
+		if !within(func() { inst, u = r.Next() }) {
+			out.Oracle = append(out.Oracle, OracleFailure{"C17", "receiver-blocked-by-idle-downloader", "Receiver.Next did not return within 3 s after a downloader found its instance gone", map[string]any{"s1": s1}})
+			hist(out.Hist, "receiver-reappear/blocked")
+			return
+		}
+		if inst != "" {
 			delivered = inst == "o" && u.NameInfo.FullName == s2
 			u.Close()
 			break
 		}
 		time.Sleep(10 * time.Millisecond)
-		_ = r.RunOnce(ctx, false) // Receiver.Run keeps listing; the bucket does not change any more
+		if !within(func() { _ = r.RunOnce(ctx, false) }) { // Receiver.Run keeps listing; the bucket does not change any more
+			out.Oracle = append(out.Oracle, OracleFailure{"C17", "receiver-blocked-by-idle-downloader", "Receiver.RunOnce did not return within 3 s after a downloader found its instance gone", map[string]any{"s1": s1}})
+			hist(out.Hist, "receiver-reappear/blocked")
+			return
+		}
 	}
 	hist(out.Hist, "receiver-reappear/evaluated")
 	if !delivered {
 		out.Oracle = append(out.Oracle, OracleFailure{"C16", "reappearing-instance-delivered", "instance o: snapshot S1 cleaned while its download was in flight, a listing finds the instance gone, the download fails and the downloader finds nothing to do; at that moment the instance publishes S2 and a listing notifies the downloader on record: S2, the newest snapshot of o, was not handed to the merge loop within 3 s of further listings", map[string]any{"s1": s1, "s2": s2}})
 	}
+}
+
+// corruptBlobsOnRealLoops: undecodable blobs in the bucket while the REAL sync loop runs (real receiver, real
+// downloaders, memory limits of 1).
+//  (a) daemon mode: peer b has a valid snapshot A (merged), then a NEWER undecodable blob B (ignored; the
+//      receiver falls back to A and offers it again), then a newer valid snapshot C: C is merged (C16, C08);
+//      repeated three times, so a token lost per fallback would exhaust the limit.
+//  (b) only_once: b has a valid snapshot and a newer undecodable blob, c has only an undecodable blob: the run
+//      merges b's valid snapshot and RETURNS by itself (C08: a corrupt blob does not block; C16: run-once ends).
+func corruptBlobsOnRealLoops(out *AreaOut) error {
+	mkSnap := func(inst string, ts time.Time, key, val string) (string, []byte) {
+		d := snapshot.NewDBI()
+		d.SetName("app")
+		d.Append(snapshot.KV{Key: []byte(key), Value: []byte(val), TimestampNano: uint64(ts.UnixNano())})
+		sn := &snapshot.Snapshot{FormatVersion: 3, CompatVersion: 1, Meta: snapshot.Meta{DatabaseName: dbName, InstanceID: inst, TimestampNano: uint64(ts.UnixNano())}, Databases: []*snapshot.DBI{d}}
+		data, _, _ := snapshot.DumpData(sn)
+		return snapshot.Name(dbName, inst, "GX", ts), data
+	}
+	hasKey := func(env *lmdb.Env, key string) bool {
+		found := false
+		_ = env.View(func(txn *lmdb.Txn) error {
+			d, err := txn.OpenDBI("app", 0)
+			if err != nil {
+				return nil
+			}
+			_, err = txn.Get(d, []byte(key))
+			found = err == nil
+			return nil
+		})
+		return found
+	}
+	waitKey := func(env *lmdb.Env, key string, d time.Duration) bool {
+		for dl := time.Now().Add(d); time.Now().Before(dl); time.Sleep(5 * time.Millisecond) {
+			if hasKey(env, key) {
+				return true
+			}
+		}
+		return false
+	}
+	garbage := []byte("this is not a gzip stream")
+	ctx0 := context.Background()
+	base := time.Now().Add(-time.Hour)
+	// (a)
+	{
+		out.OracleN++
+		env, cleanup, err := newEnv()
+		if err != nil {
+			return err
+		}
+		st := memory.New()
+		sy, err := newSyncer(env, st, syncerOpts{Native: true, Instance: "a", Mod: func(c *config.Config, lc *config.LMDB) {
+			c.LMDBPollInterval = 2 * time.Millisecond
+			c.StoragePollInterval = 3 * time.Millisecond
+			c.StorageRetryInterval = 2 * time.Millisecond
+			c.MemoryDownloadedSnapshots = 1
+			c.MemoryDecompressedSnapshots = 1
+		}})
+		if err != nil {
+			cleanup()
+			return err
+		}
+		ctx, cancel := context.WithCancel(ctx0)
+		done := make(chan error, 1)
+		go func() { done <- sy.Sync(ctx) }()
+		bad := ""
+		for round := 0; round < 3 && bad == ""; round++ {
+			t := base.Add(time.Duration(round) * time.Minute)
+			nA, dA := mkSnap("b", t, fmt.Sprintf("a%d", round), "v")
+			_ = st.Store(ctx0, nA, dA)
+			if !waitKey(env, fmt.Sprintf("a%d", round), 3*time.Second) {
+				bad = fmt.Sprintf("round %d: the valid snapshot %s of instance b was not merged within 3 s", round, nA)
+				break
+			}
+			nB, _ := mkSnap("b", t.Add(10*time.Second), "x", "x")
+			_ = st.Store(ctx0, nB, garbage)
+			time.Sleep(40 * time.Millisecond) // the blob is downloaded, found undecodable and ignored; the receiver falls back
+			nC, dC := mkSnap("b", t.Add(20*time.Second), fmt.Sprintf("c%d", round), "v")
+			_ = st.Store(ctx0, nC, dC)
+			if !waitKey(env, fmt.Sprintf("c%d", round), 3*time.Second) {
+				bad = fmt.Sprintf("round %d: after the undecodable blob %s, the newer valid snapshot %s of instance b was not merged within 3 s (memory limits: 1 downloaded, 1 decompressed)", round, nB, nC)
+			}
+		}
+		cancel()
+		select {
+		case <-done:
+		case <-time.After(5 * time.Second):
+		}
+		cleanup()
+		hist(out.Hist, "corrupt-blob/daemon")
+		if bad != "" {
+			for _, pid := range []string{"C16", "C08"} {
+				out.Oracle = append(out.Oracle, OracleFailure{pid, "newest-decodable-merged-after-corrupt-blob", "real sync loop: " + bad, nil})
+			}
+		}
+	}
+	// (b)
+	for _, native := range []bool{true, false} {
+		out.OracleN++
+		env, cleanup, err := newEnv()
+		if err != nil {
+			return err
+		}
+		st := memory.New()
+		nA, dA := mkSnap("b", base, "fromb", "v")
+		_ = st.Store(ctx0, nA, dA)
+		nB, _ := mkSnap("b", base.Add(time.Minute), "x", "x")
+		_ = st.Store(ctx0, nB, garbage)
+		nC, _ := mkSnap("c", base, "x", "x")
+		_ = st.Store(ctx0, nC, garbage)
+		sy, err := newSyncer(env, st, syncerOpts{Native: native, Instance: "a", Mod: func(c *config.Config, lc *config.LMDB) {
+			c.OnlyOnce = true
+			c.LMDBPollInterval = 2 * time.Millisecond
+			c.StoragePollInterval = 3 * time.Millisecond
+			c.StorageRetryInterval = 2 * time.Millisecond
+		}})
+		if err != nil {
+			cleanup()
+			return err
+		}
+		ctx, cancel := context.WithCancel(ctx0)
+		done := make(chan error, 1)
+		go func() { done <- sy.Sync(ctx) }()
+		returned := false
+		select {
+		case <-done:
+			returned = true
+		case <-time.After(6 * time.Second):
+		}
+		merged := hasKey(env, "fromb")
+		if !native {
+			merged = false
+			_ = env.View(func(txn *lmdb.Txn) error {
+				d, err := txn.OpenDBI(shadowPrefix+"app", 0)
+				if err != nil {
+					return nil
+				}
+				_, err = txn.Get(d, []byte("fromb"))
+				merged = err == nil
+				return nil
+			})
+		}
+		cancel()
+		if !returned {
+			select {
+			case <-done:
+			case <-time.After(5 * time.Second):
+			}
+		}
+		cleanup()
+		hist(out.Hist, fmt.Sprintf("corrupt-blob/only-once/native=%v", native))
+		switch {
+		case !returned:
+			for _, pid := range []string{"C08", "C16"} {
+				out.Oracle = append(out.Oracle, OracleFailure{pid, "only-once-ends-despite-corrupt-blobs", fmt.Sprintf("native=%v: only_once run on a bucket where instance b has a valid snapshot and a newer undecodable blob and instance c has only an undecodable blob: Sync had not returned after 6 s (b's valid snapshot merged: %v)", native, merged), nil})
+			}
+		case !merged:
+			for _, pid := range []string{"C08", "C16"} {
+				out.Oracle = append(out.Oracle, OracleFailure{pid, "newest-decodable-merged-after-corrupt-blob", fmt.Sprintf("native=%v: only_once run returned, but the newest DECODABLE snapshot of instance b (an older one; the newest blob is undecodable) was not merged", native), nil})
+			}
+		}
+	}
+	return nil
 }
